@@ -7,6 +7,7 @@ import (
 	"github.com/fatih/color"
 	"grog/internal/config"
 	"grog/internal/console"
+	"io"
 	"os"
 	"path/filepath"
 	"strconv"
@@ -20,7 +21,9 @@ import (
 // managing a lock file in the workspace root directory.
 type WorkspaceLocker struct {
 	lockFilePath string
-	printOnce    sync.Once
+	// the open lock file while this locker holds the lock (closing it releases the lock)
+	lockFile  *os.File
+	printOnce sync.Once
 }
 
 // NewWorkspaceLocker creates a locker using the global configuration.
@@ -30,42 +33,50 @@ func NewWorkspaceLocker() *WorkspaceLocker {
 }
 
 // Lock blocks until the workspace lock can be acquired.
+//
+// The lock is an advisory kernel lock (flock) on the lock file rather than the mere existence
+// of the file: the kernel hands it to exactly one process at a time and drops it when the
+// holder exits or dies, so there is no window between "check who owns the file" and "remove it"
+// and a lock file left behind by a dead process never has to be cleaned up by a contender.
+// The file still contains the PID of the holder (for the waiting message).
 func (wl *WorkspaceLocker) Lock(ctx context.Context) error {
 	logger := console.GetLogger(ctx)
 	pidStr := []byte(fmt.Sprintf("%d", os.Getpid()))
-	waitPrinted := false
 
+	waitPrinted := false
 	for {
 		logger.Debugf("Attempting to acquire workspace lock at %s", wl.lockFilePath)
-		file, err := os.OpenFile(wl.lockFilePath, os.O_RDWR|os.O_CREATE|os.O_EXCL, 0644)
-		if err == nil || errors.Is(err, os.ErrNotExist) {
-			_, writeErr := file.Write(pidStr)
-			file.Close()
-			if writeErr != nil {
-				os.Remove(wl.lockFilePath)
-				return writeErr
-			}
-			return nil
-		}
-		if !errors.Is(err, os.ErrExist) {
+		file, err := os.OpenFile(wl.lockFilePath, os.O_RDWR|os.O_CREATE, 0644)
+		if err != nil {
 			return err
 		}
 
-		// Read the lock file which contains the PID of the other process
-		data, readError := os.ReadFile(wl.lockFilePath)
-		if readError != nil {
-			_ = os.Remove(wl.lockFilePath)
-			continue
+		lockErr := tryLockFile(file)
+		if lockErr == nil {
+			// We own the kernel lock of the file we opened. If the previous holder released the
+			// lock in between, that file has already been unlinked (see Unlock) and the path is
+			// free again or names a newer lock file: start over with whatever is at the path now.
+			if !isFileAtPath(file, wl.lockFilePath) {
+				file.Close()
+				continue
+			}
+			if writeErr := writeLockOwner(file, pidStr); writeErr != nil {
+				os.Remove(wl.lockFilePath)
+				file.Close()
+				return writeErr
+			}
+			wl.lockFile = file
+			return nil
 		}
-		otherPid, conversionError := strconv.Atoi(strings.TrimSpace(string(data)))
-		if conversionError != nil {
-			_ = os.Remove(wl.lockFilePath)
-			continue
+		if !errors.Is(lockErr, syscall.EWOULDBLOCK) {
+			file.Close()
+			return lockErr
 		}
-		if !processRunning(otherPid) {
-			_ = os.Remove(wl.lockFilePath)
-			continue
-		}
+
+		// Another running process holds the lock: read its PID for the message
+		data, _ := io.ReadAll(file)
+		file.Close()
+		otherPid, _ := strconv.Atoi(strings.TrimSpace(string(data)))
 
 		if waitPrinted == false {
 			green := color.New(color.FgGreen).SprintFunc()
@@ -86,7 +97,41 @@ func (wl *WorkspaceLocker) Lock(ctx context.Context) error {
 
 // Unlock releases the workspace lock.
 func (wl *WorkspaceLocker) Unlock() error {
-	return os.Remove(wl.lockFilePath)
+	// Remove the path first and release the kernel lock second: a waiter that gets the kernel lock
+	// on the unlinked file notices that it is no longer at the path and starts over.
+	err := os.Remove(wl.lockFilePath)
+	if wl.lockFile != nil {
+		wl.lockFile.Close()
+		wl.lockFile = nil
+	}
+	return err
+}
+
+// tryLockFile takes the exclusive advisory lock of the open file without blocking.
+func tryLockFile(file *os.File) error {
+	return syscall.Flock(int(file.Fd()), syscall.LOCK_EX|syscall.LOCK_NB)
+}
+
+// isFileAtPath reports whether path still names the open file.
+func isFileAtPath(file *os.File, path string) bool {
+	openInfo, err := file.Stat()
+	if err != nil {
+		return false
+	}
+	pathInfo, err := os.Stat(path)
+	if err != nil {
+		return false
+	}
+	return os.SameFile(openInfo, pathInfo)
+}
+
+// writeLockOwner replaces the content of the lock file with the PID of the holder.
+func writeLockOwner(file *os.File, pidStr []byte) error {
+	if err := file.Truncate(0); err != nil {
+		return err
+	}
+	_, err := file.WriteAt(pidStr, 0)
+	return err
 }
 
 func processRunning(pid int) bool {
